@@ -781,7 +781,7 @@ nnls_normal_block3(cholmod_sparse *AtA, cholmod_dense *Atb, int verbose,
         /* Is x the minimizer on the current passive set? */
         int at_solution = true;
         clock_t t0, t1;
-        double kkt_tolerance, y_min, residual;
+        double kkt_tolerance, x_tolerance, y_min, residual;
 
         /* XXX: make these settable? */
         max_iter = 120;                /* Maximum number of iterations */
@@ -791,6 +791,28 @@ nnls_normal_block3(cholmod_sparse *AtA, cholmod_dense *Atb, int verbose,
 
         /* Heuristic stopping tolerance inspired from Adlers' thesis */
         kkt_tolerance = ((double)(nvar)) * DBL_EPSILON * 1e5;
+        /*
+         * The tolerance is compared with the multipliers AtA x - Atb, and
+         * with the solution itself to decide whether a coefficient sits on
+         * its bound. Both must be measured in the units of the problem:
+         * with an absolute tolerance, data (or weights) which are merely
+         * small in magnitude never release a coefficient from its bound,
+         * and the result is zero throughout.
+         */
+        {
+                double atb_max = 0, ata_max = 0;
+                cholmod_dense *Atb_abs = Atb;
+                for (i = 0; i < nvar; i++)
+                        if (fabs(((double *)(Atb_abs->x))[i]) > atb_max)
+                                atb_max = fabs(((double *)(Atb_abs->x))[i]);
+                ata_max = cholmod_l_norm_sparse(AtA, 0, c);
+                x_tolerance = kkt_tolerance;
+                if (atb_max > 0) {
+                        kkt_tolerance *= atb_max;
+                        x_tolerance = (ata_max > 0) ?
+                            kkt_tolerance/ata_max*nvar : kkt_tolerance;
+                }
+        }
         if (verbose)
                 printf("Stopping tolerance: %e\n",kkt_tolerance);
 
@@ -1075,7 +1097,7 @@ nnls_normal_block3(cholmod_sparse *AtA, cholmod_dense *Atb, int verbose,
                                 if (((double*)(x_F->x))[i] < 0) {
                                         nF_inf++;
                                         if (((double*)(x->x))[F[i]] < 
-                                            kkt_tolerance)
+                                            x_tolerance)
                                                 nF_inf_boundary++;
                                         
                                 }
